@@ -259,4 +259,520 @@ theorem mem_markedKeys {V : Type} (cv : Conv V) :
           · simp [ht, this]
           · simp [ht, this]
 
+/-! ## title binding -/
+
+theorem lookupLast_some :
+    ∀ (ts : List Key) (t : Key) (j : Nat), lookupLast ts t = some j →
+      ts[j]? = some t ∧ ∀ k, j < k → ts[k]? ≠ some t := by
+  intro ts
+  induction ts with
+  | nil => intro t j h; simp [lookupLast] at h
+  | cons a as ih =>
+    intro t j h
+    simp only [lookupLast] at h
+    cases hl : lookupLast as t with
+    | some j' =>
+      rw [hl] at h; cases h
+      obtain ⟨h1, h2⟩ := ih t j' hl
+      refine ⟨by simpa using h1, ?_⟩
+      intro k hk
+      cases k with
+      | zero => omega
+      | succ k => simpa using h2 k (by omega)
+    | none =>
+      rw [hl] at h
+      simp only [] at h
+      split at h
+      · rename_i ha
+        cases h
+        refine ⟨by simp [ha], ?_⟩
+        intro k hk
+        cases k with
+        | zero => omega
+        | succ k =>
+          simp only [List.getElem?_cons_succ]
+          intro hc
+          have hmem : t ∈ as := List.mem_of_getElem? hc
+          clear ih hk ha
+          -- `lookupLast as t = none` contradicts `t ∈ as`
+          induction as generalizing k with
+          | nil => cases hmem
+          | cons b bs ih2 =>
+            simp only [lookupLast] at hl
+            cases hl2 : lookupLast bs t with
+            | some _ => rw [hl2] at hl; cases hl
+            | none =>
+              rw [hl2] at hl
+              simp only [] at hl
+              split at hl
+              · cases hl
+              · rename_i hb
+                cases k with
+                | zero => simp at hc; exact hb hc
+                | succ k =>
+                  exact ih2 hl2 k (by simpa using hc) (List.mem_of_getElem? (by simpa using hc))
+      · cases h
+
+theorem lookupLast_none : ∀ (ts : List Key) (t : Key), lookupLast ts t = none → t ∉ ts := by
+  intro ts
+  induction ts with
+  | nil => intro t _; simp
+  | cons a as ih =>
+    intro t h
+    simp only [lookupLast] at h
+    cases hl : lookupLast as t with
+    | some _ => rw [hl] at h; cases h
+    | none =>
+      rw [hl] at h
+      simp only [] at h
+      split at h
+      · cases h
+      · rename_i ha
+        simp only [List.mem_cons, not_or]
+        exact ⟨fun hc => ha hc.symm, ih t hl⟩
+
+theorem lookupLast_of_mem (ts : List Key) (t : Key) (h : t ∈ ts) : ∃ j, lookupLast ts t = some j := by
+  cases hl : lookupLast ts t with
+  | some j => exact ⟨j, rfl⟩
+  | none => exact absurd h (lookupLast_none ts t hl)
+
+theorem lookupAllLast_spec (titles : List Key) :
+    ∀ (names : List Key) (ids : List Nat), lookupAllLast titles names = some ids →
+      ids.length = names.length ∧
+      ∀ (m : Nat) (n : Key), names[m]? = some n →
+        ∃ j, ids[m]? = some j ∧ lookupLast titles n = some j := by
+  intro names
+  induction names with
+  | nil => intro ids h; simp [lookupAllLast] at h; subst h; simp
+  | cons n ns ih =>
+    intro ids h
+    simp only [lookupAllLast] at h
+    split at h
+    · rename_i j js hj hjs
+      cases h
+      obtain ⟨h1, h2⟩ := ih js hjs
+      refine ⟨by simp [h1], ?_⟩
+      intro m n' hm
+      cases m with
+      | zero => simp at hm; subst hm; exact ⟨j, by simp, hj⟩
+      | succ m => simpa using h2 m n' (by simpa using hm)
+    · cases h
+
+theorem lookupAllLast_of_mem (titles : List Key) :
+    ∀ (names : List Key), (∀ n ∈ names, n ∈ titles) → ∃ ids, lookupAllLast titles names = some ids := by
+  intro names
+  induction names with
+  | nil => intro _; exact ⟨[], rfl⟩
+  | cons n ns ih =>
+    intro h
+    obtain ⟨j, hj⟩ := lookupLast_of_mem titles n (h n (by simp))
+    obtain ⟨js, hjs⟩ := ih (fun x hx => h x (by simp [hx]))
+    exact ⟨j :: js, by simp [lookupAllLast, hj, hjs]⟩
+
+theorem takeWhile_all {α : Type} (p : α → Bool) :
+    ∀ (l : List α), ∀ x ∈ l.takeWhile p, p x = true := by
+  intro l
+  induction l with
+  | nil => intro x hx; simp at hx
+  | cons a as ih =>
+    intro x hx
+    simp only [List.takeWhile_cons] at hx
+    split at hx
+    · rename_i ha
+      simp only [List.mem_cons] at hx
+      rcases hx with hx | hx
+      · exact hx ▸ ha
+      · exact ih x hx
+    · cases hx
+
+theorem dropWhile_head {α : Type} (p : α → Bool) :
+    ∀ (l : List α) (x : α) (rest : List α), l.dropWhile p = x :: rest → p x = false := by
+  intro l
+  induction l with
+  | nil => intro x rest h; simp at h
+  | cons a as ih =>
+    intro x rest h
+    simp only [List.dropWhile_cons] at h
+    split at h
+    · exact ih x rest h
+    · rename_i ha
+      cases h
+      simpa using ha
+
+theorem mem_of_mem_dropWhile {α : Type} (p : α → Bool) (l : List α) (x : α)
+    (h : x ∈ l.dropWhile p) : x ∈ l := by
+  have := List.takeWhile_append_dropWhile (p := p) (l := l)
+  rw [← this]; exact List.mem_append_right _ h
+
+theorem mem_of_mem_takeWhile {α : Type} (p : α → Bool) (l : List α) (x : α)
+    (h : x ∈ l.takeWhile p) : x ∈ l := by
+  have := List.takeWhile_append_dropWhile (p := p) (l := l)
+  rw [← this]; exact List.mem_append_left _ h
+
+theorem rangeNames_mem (known titles : List Key) (k : Key) (h : k ∈ rangeNames known titles) :
+    k ∈ titles ∧ isRangeCol known k = true :=
+  ⟨mem_of_mem_dropWhile _ _ _ (mem_of_mem_takeWhile _ _ _ h), takeWhile_all _ _ k h⟩
+
+/-- the range columns are the first maximal run of titled columns that no rule names -/
+theorem rangeNames_run (known titles : List Key) :
+    ∃ pre post, titles = pre ++ rangeNames known titles ++ post ∧
+      (∀ t ∈ pre, isRangeCol known t = false) ∧
+      (∀ t ∈ rangeNames known titles, isRangeCol known t = true) ∧
+      (∀ t rest, post = t :: rest → isRangeCol known t = false) := by
+  refine ⟨titles.takeWhile (fun t => !isRangeCol known t),
+    (titles.dropWhile (fun t => !isRangeCol known t)).dropWhile (isRangeCol known), ?_, ?_, ?_, ?_⟩
+  · unfold rangeNames
+    rw [List.append_assoc, List.takeWhile_append_dropWhile, List.takeWhile_append_dropWhile]
+  · intro t ht
+    have := takeWhile_all _ _ t ht
+    simpa using this
+  · intro t ht; exact takeWhile_all _ _ t ht
+  · intro t rest h; exact dropWhile_head _ _ t rest h
+
+theorem bindTitles_spec {V : Type} (titles : List Key) (rules : List (Rule V)) (slots : List Slot)
+    (h : bindTitles titles rules = .ok slots) :
+    slots.length = rules.length ∧
+    ∀ (i : Nat) (r : Rule V) (sl : Slot), rules[i]? = some r → slots[i]? = some sl →
+      bindRule titles (knownTitles rules) r = .ok sl := by
+  unfold bindTitles at h
+  refine ⟨mapE_length _ _ _ h, ?_⟩
+  intro i r sl hr hs
+  obtain ⟨r', hr', hb⟩ := mapE_get _ _ _ h i sl hs
+  rw [hr] at hr'; cases hr'; exact hb
+
+/-! ## one row → one object -/
+
+theorem zipInit_spec {V : Type} (cv : Conv V) :
+    ∀ (rules : List (Rule V)) (srcs : List Src) (attrs : List (AVal V × Origin)),
+      zipInit cv rules srcs = .ok attrs →
+        attrs.length = min rules.length srcs.length ∧
+        ∀ (i : Nat) (a : AVal V × Origin), attrs[i]? = some a →
+          ∃ r s, rules[i]? = some r ∧ srcs[i]? = some s ∧ initAttr cv r s = .ok a := by
+  intro rules
+  induction rules with
+  | nil => intro srcs attrs h; simp [zipInit] at h; subst h; simp
+  | cons r rs ih =>
+    intro srcs attrs h
+    cases srcs with
+    | nil => simp [zipInit] at h; subst h; simp
+    | cons s ss =>
+      simp only [zipInit] at h
+      split at h
+      · cases h
+      · rename_i a ha
+        split at h
+        · cases h
+        · rename_i as has
+          cases h
+          obtain ⟨h1, h2⟩ := ih ss as has
+          refine ⟨by simp [h1], ?_⟩
+          intro i a' hi
+          cases i with
+          | zero => simp at hi; subst hi; exact ⟨r, s, by simp, by simp, ha⟩
+          | succ i => simpa using h2 i a' (by simpa using hi)
+
+theorem construct_some {V : Type} (cv : Conv V) (numId : Nat) (rules : List (Rule V))
+    (slots : List Slot) (row : Row) (o : Obj V)
+    (h : construct cv numId rules slots row = .ok (some o)) :
+    ∃ srcs, mapE (srcOf row) slots = .ok srcs ∧ zipInit cv rules srcs = .ok o.attrs := by
+  unfold construct at h
+  split at h
+  · cases h
+  · rename_i srcs hs
+    refine ⟨srcs, hs, ?_⟩
+    split at h
+    · cases h
+    · split at h
+      · cases h
+      · split at h
+        · cases h
+        · split at h
+          · cases h
+          · split at h
+            · cases h
+            · rename_i attrs ha
+              split at h
+              · cases h
+              · cases h; exact ha
+
+/-- every attribute of an object built from `row` comes from its rule, its slot and `row` -/
+theorem construct_attr {V : Type} (cv : Conv V) (numId : Nat) (rules : List (Rule V))
+    (slots : List Slot) (row : Row) (o : Obj V)
+    (h : construct cv numId rules slots row = .ok (some o)) (hlen : slots.length = rules.length) :
+    o.attrs.length = rules.length ∧
+    ∀ (i : Nat) (a : AVal V × Origin), o.attrs[i]? = some a →
+      ∃ r sl s, rules[i]? = some r ∧ slots[i]? = some sl ∧ srcOf row sl = .ok s ∧
+        initAttr cv r s = .ok a := by
+  obtain ⟨srcs, hs, hz⟩ := construct_some cv numId rules slots row o h
+  have hl := mapE_length _ _ _ hs
+  obtain ⟨h1, h2⟩ := zipInit_spec cv rules srcs o.attrs hz
+  refine ⟨by omega, ?_⟩
+  intro i a ha
+  obtain ⟨r, s, hr, hsi, hi⟩ := h2 i a ha
+  obtain ⟨sl, hsl, hso⟩ := mapE_get _ _ _ hs i s hsi
+  exact ⟨r, sl, s, hr, hsl, hso, hi⟩
+
+/-! ## what an attribute and its reported origin say about each other -/
+
+/-- ranged attribute: `items` is the reported `{title: coordinate}` -/
+def RangeOk {V : Type} (cv : Conv V) (titles known : List Key) (look : Nat → Cell → Prop)
+    (kind : RangeKind) (ct : Nat) (val : AVal V) (items : List (Key × List Char)) : Prop :=
+  (∀ k c, dictGet items k = some c →
+      ∃ (j : Nat) (cell : Cell) (v : V), titles[j]? = some k ∧ (∀ j', j < j' → titles[j']? ≠ some k) ∧
+        isRangeCol known k = true ∧ look j cell ∧ cell.coord = c ∧
+        cv.conv ct cell.val = .ok v ∧
+        match kind with
+        | .dict => ∃ d, val = .dict d ∧ dictGet d k = some v
+        | .set => ∃ ks, val = .set ks ∧ (k ∈ ks ↔ cv.truthy v = true)) ∧
+  (∀ k, (∃ c, dictGet items k = some c) ↔ k ∈ rangeNames known titles) ∧
+  (match val with
+   | .dict d => ∀ k v, dictGet d k = some v → ∃ c, dictGet items k = some c
+   | .set ks => ∀ k, k ∈ ks → ∃ c, dictGet items k = some c
+   | .plain _ => False)
+
+/-- one attribute `a = (value, origin)` read by `rule` under the titles `titles`; `look j cell`:
+`cell` is the cell that holds the value of column `j` for the row the object was made from -/
+def AttrOk {V : Type} (cv : Conv V) (titles known : List Key) (look : Nat → Cell → Prop)
+    (rule : Rule V) (a : AVal V × Origin) : Prop :=
+  match a.2 with
+  | .na => ∃ d, rule = .ext d ∧ a.1 = .plain d
+  | .skipped => ∃ t ct d, rule = .col t ct (some d) ∧ t ∉ titles ∧ a.1 = .plain d
+  | .cell c => ∃ (t : Key) (ct : Nat) (d : Option V) (j : Nat) (cell : Cell) (v : V),
+      rule = .col t ct d ∧ titles[j]? = some t ∧
+      (∀ j', j < j' → titles[j']? ≠ some t) ∧ look j cell ∧ cell.coord = c ∧
+      cv.conv ct cell.val = .ok v ∧ a.1 = .plain v
+  | .range items => ∃ kind ct opt, rule = .range kind ct opt ∧
+      RangeOk cv titles known look kind ct a.1 items
+
+theorem getCell_ok (row : Row) (j : Nat) (c : Cell) (h : getCell row j = .ok c) : row[j]? = some c := by
+  unfold getCell at h
+  split at h
+  · rename_i c' hc; cases h; exact hc
+  · cases h
+
+theorem getElem?_lt_of_some {α : Type} (l : List α) (i : Nat) (a : α) (h : l[i]? = some a) :
+    i < l.length := by
+  rcases Nat.lt_or_ge i l.length with h' | h'
+  · exact h'
+  · rw [List.getElem?_eq_none h'] at h; cases h
+
+section range
+variable {V : Type} (cv : Conv V) (titles known : List Key) (row : Row) (ct : Nat)
+variable (ids : List Nat) (cells : List Cell) (vs : List V)
+
+/-- the chain title → position → cell → converted value for the `m`-th range column -/
+theorem range_chain
+    (hids : lookupAllLast titles (rangeNames known titles) = some ids)
+    (hcells : mapE (getCell row) ids = .ok cells)
+    (hvs : mapE (fun c => cv.conv ct c.val) cells = .ok vs)
+    (m : Nat) (n : Key) (hm : (rangeNames known titles)[m]? = some n) :
+    ∃ (j : Nat) (cell : Cell) (v : V), lookupLast titles n = some j ∧ row[j]? = some cell ∧
+      cells[m]? = some cell ∧ vs[m]? = some v ∧ cv.conv ct cell.val = .ok v := by
+  obtain ⟨_, h2⟩ := lookupAllLast_spec titles _ ids hids
+  obtain ⟨j, hj, hl⟩ := h2 m n hm
+  obtain ⟨cell, hc, hg⟩ := mapE_get' _ _ _ hcells m j hj
+  obtain ⟨v, hv, hcv⟩ := mapE_get' _ _ _ hvs m cell hc
+  exact ⟨j, cell, v, hl, getCell_ok _ _ _ hg, hc, hv, hcv⟩
+
+theorem range_lengths
+    (hids : lookupAllLast titles (rangeNames known titles) = some ids)
+    (hcells : mapE (getCell row) ids = .ok cells)
+    (hvs : mapE (fun c => cv.conv ct c.val) cells = .ok vs) :
+    cells.length = (rangeNames known titles).length ∧ vs.length = (rangeNames known titles).length := by
+  have h1 := (lookupAllLast_spec titles _ ids hids).1
+  have h2 := mapE_length _ _ _ hcells
+  have h3 := mapE_length _ _ _ hvs
+  omega
+
+theorem range_ok (kind : RangeKind) (opt : Bool) (a : AVal V × Origin)
+    (hids : lookupAllLast titles (rangeNames known titles) = some ids)
+    (hcells : mapE (getCell row) ids = .ok cells)
+    (hinit : initAttr cv (.range kind ct opt) (.range (rangeNames known titles) cells) = .ok a) :
+    ∃ items, a.2 = .range items ∧
+      RangeOk cv titles known (fun j c => row[j]? = some c) kind ct a.1 items := by
+  simp only [initAttr] at hinit
+  split at hinit
+  · cases hinit
+  · rename_i vs hvs
+    have hchain := range_chain cv titles known row ct ids cells vs hids hcells hvs
+    obtain ⟨hlc, hlv⟩ := range_lengths cv titles known row ct ids cells vs hids hcells hvs
+    -- facts about the reported origins, independent of the kind
+    have hkeys : ∀ k, (∃ c, dictGet (dictOf ((rangeNames known titles).zip (cells.map fun c => c.coord))) k = some c)
+        ↔ k ∈ rangeNames known titles := by
+      intro k
+      constructor
+      · rintro ⟨c, hc⟩
+        rw [dictGet_dictOf] at hc
+        obtain ⟨m, hm, _, _⟩ := lastVal_zip _ _ _ _ hc
+        exact List.mem_of_getElem? hm
+      · intro hk
+        obtain ⟨m, hm⟩ := List.getElem?_of_mem hk
+        obtain ⟨j, cell, v, _, _, hcm, _, _⟩ := hchain m k hm
+        obtain ⟨y, hy⟩ := lastVal_zip_of_get (rangeNames known titles) (cells.map fun c => c.coord) k m
+          cell.coord hm (by simp [hcm])
+        exact ⟨y, by rw [dictGet_dictOf]; exact hy⟩
+    have horg : ∀ k c, dictGet (dictOf ((rangeNames known titles).zip (cells.map fun c => c.coord))) k = some c →
+        ∃ (m j : Nat) (cell : Cell) (v : V), (rangeNames known titles)[m]? = some k ∧
+          (∀ m', m < m' → m' < cells.length → (rangeNames known titles)[m']? ≠ some k) ∧
+          lookupLast titles k = some j ∧ row[j]? = some cell ∧ cell.coord = c ∧
+          vs[m]? = some v ∧ cv.conv ct cell.val = .ok v := by
+      intro k c hc
+      rw [dictGet_dictOf] at hc
+      obtain ⟨m, hm, hcm, hlast⟩ := lastVal_zip _ _ _ _ hc
+      obtain ⟨j, cell, v, hl, hr, hcell, hv, hcv⟩ := hchain m k hm
+      refine ⟨m, j, cell, v, hm, ?_, hl, hr, ?_, hv, hcv⟩
+      · intro m' h1 h2; exact hlast m' h1 (by simpa using h2)
+      · simp [hcell] at hcm; exact hcm
+    cases kind with
+    | dict =>
+      simp only [] at hinit
+      cases hinit
+      refine ⟨_, rfl, ?_, hkeys, ?_⟩
+      · intro k c hc
+        obtain ⟨m, j, cell, v, hm, hlast, hl, hr, hco, hv, hcv⟩ := horg k c hc
+        obtain ⟨ht, hlastj⟩ := lookupLast_some titles k j hl
+        refine ⟨j, cell, v, ht, hlastj, (rangeNames_mem known titles k (List.mem_of_getElem? hm)).2, hr, hco, hcv, ?_⟩
+        refine ⟨_, rfl, ?_⟩
+        rw [dictGet_dictOf]
+        obtain ⟨y, hy⟩ := lastVal_zip_of_get (rangeNames known titles) vs k m v hm hv
+        obtain ⟨m2, hm2, hv2, hlast2⟩ := lastVal_zip _ _ _ _ hy
+        have hm2lt := getElem?_lt_of_some _ _ _ hv2
+        have hmlt := getElem?_lt_of_some _ _ _ hv
+        have : m = m2 := by
+          rcases Nat.lt_trichotomy m m2 with h | h | h
+          · exact absurd hm2 (hlast m2 h (by omega))
+          · exact h
+          · exact absurd hm (hlast2 m h hmlt)
+        subst this
+        rw [hv] at hv2; cases hv2; exact hy
+      · intro k v hk
+        rw [dictGet_dictOf] at hk
+        obtain ⟨m, hm, _, _⟩ := lastVal_zip _ _ _ _ hk
+        exact (hkeys k).mpr (List.mem_of_getElem? hm)
+    | set =>
+      simp only [] at hinit
+      cases hinit
+      refine ⟨_, rfl, ?_, hkeys, ?_⟩
+      · intro k c hc
+        obtain ⟨m, j, cell, v, hm, hlast, hl, hr, hco, hv, hcv⟩ := horg k c hc
+        obtain ⟨ht, hlastj⟩ := lookupLast_some titles k j hl
+        refine ⟨j, cell, v, ht, hlastj, (rangeNames_mem known titles k (List.mem_of_getElem? hm)).2, hr, hco, hcv, ?_⟩
+        refine ⟨_, rfl, ?_⟩
+        rw [mem_setOf, mem_markedKeys]
+        constructor
+        · rintro ⟨m', v', hm', hv', htr⟩
+          obtain ⟨j', cell', v'', hl', hr', _, hv'', hcv'⟩ := hchain m' k hm'
+          rw [hl] at hl'; cases hl'
+          rw [hr] at hr'; cases hr'
+          rw [hcv] at hcv'; cases hcv'
+          rw [hv'] at hv''; cases hv''
+          exact htr
+        · intro htr; exact ⟨m, v, hm, hv, htr⟩
+      · intro k hk
+        rw [mem_setOf, mem_markedKeys] at hk
+        obtain ⟨m, _, hm, _, _⟩ := hk
+        exact (hkeys k).mpr (List.mem_of_getElem? hm)
+
+end range
+
+theorem attr_ok {V : Type} (cv : Conv V) (titles known : List Key) (row : Row) (r : Rule V)
+    (sl : Slot) (s : Src) (a : AVal V × Origin)
+    (hb : bindRule titles known r = .ok sl) (hs : srcOf row sl = .ok s)
+    (hi : initAttr cv r s = .ok a) : AttrOk cv titles known (fun j c => row[j]? = some c) r a := by
+  cases r with
+  | ext d =>
+    simp only [bindRule] at hb; cases hb
+    simp only [srcOf] at hs; cases hs
+    simp only [initAttr] at hi; cases hi
+    exact ⟨d, rfl, rfl⟩
+  | col t ct dflt =>
+    simp only [bindRule] at hb
+    cases hl : lookupLast titles t with
+    | some j =>
+      rw [hl] at hb; cases hb
+      simp only [srcOf] at hs
+      split at hs
+      · rename_i c hc
+        cases hs
+        simp only [initAttr] at hi
+        split at hi
+        · rename_i v hv
+          cases hi
+          obtain ⟨ht, hlast⟩ := lookupLast_some titles t j hl
+          exact ⟨t, ct, dflt, j, c, v, rfl, ht, hlast, getCell_ok _ _ _ hc, rfl, hv, rfl⟩
+        · cases hi
+      · cases hs
+    | none =>
+      rw [hl] at hb
+      simp only [] at hb
+      split at hb
+      · rename_i hd
+        cases hb
+        simp only [srcOf] at hs; cases hs
+        cases dflt with
+        | none => simp at hd
+        | some d =>
+          simp only [initAttr] at hi; cases hi
+          exact ⟨t, ct, d, rfl, lookupLast_none titles t hl, rfl⟩
+      · cases hb
+  | range kind ct opt =>
+    simp only [bindRule] at hb
+    split at hb
+    · cases hb
+    · split at hb
+      · rename_i ids hids
+        cases hb
+        simp only [srcOf] at hs
+        split at hs
+        · rename_i cells hcells
+          cases hs
+          obtain ⟨items, ho, hr⟩ := range_ok cv titles known row ct ids cells kind opt a hids hcells hi
+          unfold AttrOk
+          rw [ho]
+          exact ⟨kind, ct, opt, rfl, hr⟩
+        · cases hs
+      · cases hb
+
+/-- no `KeyError` in `col_names_ids[n]`: binding fails only with `ValueError` -/
+theorem bindRule_error {V : Type} (titles known : List Key) (r : Rule V) (e : Err)
+    (h : bindRule titles known r = .error e) : e = .valueError := by
+  cases r with
+  | ext d => simp [bindRule] at h
+  | col t ct dflt =>
+    simp only [bindRule] at h
+    split at h
+    · cases h
+    · split at h
+      · cases h
+      · cases h; rfl
+  | range kind ct opt =>
+    simp only [bindRule] at h
+    split at h
+    · cases h; rfl
+    · split at h
+      · cases h
+      · rename_i hn
+        obtain ⟨ids, hids⟩ := lookupAllLast_of_mem titles (rangeNames known titles)
+          (fun n hn => (rangeNames_mem known titles n hn).1)
+        rw [hids] at hn; cases hn
+
+theorem AttrOk.mono {V : Type} (cv : Conv V) (titles known : List Key) (look look' : Nat → Cell → Prop)
+    (hm : ∀ j c, look j c → look' j c) (rule : Rule V) (a : AVal V × Origin)
+    (h : AttrOk cv titles known look rule a) : AttrOk cv titles known look' rule a := by
+  unfold AttrOk at h ⊢
+  split
+  · rename_i ho; simp only [ho] at h; exact h
+  · rename_i ho; simp only [ho] at h; exact h
+  · rename_i c ho
+    simp only [ho] at h
+    obtain ⟨t, ct, d, j, cell, v, h1, h2, h3, h4, h5⟩ := h
+    exact ⟨t, ct, d, j, cell, v, h1, h2, h3, hm j cell h4, h5⟩
+  · rename_i items ho
+    simp only [ho] at h
+    obtain ⟨kind, ct, opt, h1, h2, h3, h4⟩ := h
+    refine ⟨kind, ct, opt, h1, ?_, h3, h4⟩
+    intro k c hk
+    obtain ⟨j, cell, v, g1, g2, g3, g4, g5⟩ := h2 k c hk
+    exact ⟨j, cell, v, g1, g2, g3, hm j cell g4, g5⟩
+
 end Xls
